@@ -2,6 +2,8 @@ import CogentModel.Json
 import CogentModel.Model.View
 import CogentModel.Spec.PySlice
 import CogentModel.Model.SeqWrap
+import Driver.C01Seq
+import Driver.C01Gen
 open CogentModel CogentModel.View
 
 def errStr : Err → String
@@ -127,6 +129,7 @@ def handle (cmd : String) (j : J) : Except String J :=
     match SeqWrap.specRun comp nucleic t.toList ops with
     | some r => pure (J.str (String.ofList r))
     | none => pure (J.obj [("err", J.str "IndexError")])
-  | _ => throw s!"unknown command {cmd}"
+  | "gen" => C01Gen.handleGen j   -- translator self-test (generated definitions)
+  | _ => C01Seq.handleSeq cmd j
 
 def main : IO Unit := driverLoop handle
